@@ -66,6 +66,7 @@ def run(ctx: Ctx):
         if i < n_fit:
             width = len(d["control"]) + sum(len(r) for r in d["sensors"].values())
             job["fit_rows"] = ctx.rng.randint(1, 5)
+            job["fit_config"] = [{}, {"extra_validation": True, "max_dt_sec": 0.2, "common_subexpression_elimination": False}, {"extra_validation": True}][i % 3]
             job["fit_X"] = [[M.rnd_point(ctx.rng) for _ in range(width)] for _ in range(job["fit_rows"])]
         jobs.append(job)
     res = ctx.run_impl_jobs("adapter_py.py", jobs, timeout=3000)
